@@ -148,14 +148,15 @@ theorem hasFn_modRep (s : State) (r : Nat) (g : Rep → Rep) (hg : ∀ Q, (g Q).
   unfold unbindFun; split <;> simp [unsetParentIf] <;> split <;> simp
 theorem unbindFun_isSome (r f s x) : ((unbindFun r f s).reps x).isSome = (s.reps x).isSome := by
   unfold unbindFun; split <;> simp [unsetParentIf]
-  split <;> simp [modRep_isSome]
+  all_goals (split <;> simp [modRep_isSome])
 theorem hasFn_unbindFun (r f s x) : hasFn (unbindFun r f s) x = hasFn s x := by
   unfold unbindFun; split <;> simp [unsetParentIf, hasFn]
-  show hasFn _ x = hasFn s x
-  split
-  · rfl
-  · apply hasFn_modRep
-    intro Q; split <;> rfl
+  all_goals
+    show hasFn _ x = hasFn s x
+    split
+    · rfl
+    · apply hasFn_modRep
+      intro Q; split <;> rfl
 
 @[simp] theorem bindFun_nextRep (r f s) : (bindFun r f s).nextRep = s.nextRep := by
   unfold bindFun; split <;> simp [setParentIfNone] <;> split <;> simp
@@ -163,7 +164,7 @@ theorem hasFn_unbindFun (r f s x) : hasFn (unbindFun r f s) x = hasFn s x := by
   unfold bindFun; split <;> simp [setParentIfNone] <;> split <;> simp
 theorem bindFun_isSome (r f s x) : ((bindFun r f s).reps x).isSome = (s.reps x).isSome := by
   unfold bindFun; split <;> simp [setParentIfNone]
-  split <;> simp [modRep_isSome]
+  all_goals (split <;> simp [modRep_isSome])
 
 /-! ### simple `Pres` facts -/
 
@@ -403,16 +404,63 @@ theorem pres_allocRep (R : Rep) (s : State) : Pres s (allocRep R s) := fun hb =>
     · omega
     · have := hb x hx'; omega, rfl⟩
 
-theorem pres_newRep (f : Fun) (s : State) : Pres s (newRep f s) :=
-  (pres_allocRep _ s).trans (pres_bindFun _ _ _)
+theorem pres_nestFinish (n fid dd j : Nat) (s : State) : Pres s (nestFinish n fid dd j s) :=
+  (pres_modRep s n _).trans (pres_bindFun n (.nest fid j dd) _)
 
-theorem pres_cloneRep (r : Nat) (s : State) : Pres s (cloneRep r s) := by
-  unfold cloneRep
-  split
-  · exact pres_allocRep _ _
-  · split
+theorem pres_ite (c : Prop) [Decidable c] (s A B : State) (hA : Pres s A) (hB : Pres s B) :
+    Pres s (if c then A else B) := by
+  split <;> assumption
+
+theorem pres_bindFunX (e r f s) : Pres s (bindFunX e r f s) := by
+  unfold bindFunX; split
+  · exact Pres.refl _
+  · exact pres_bindFun _ _ _
+
+theorem pres_cloneRepD (e : Bool) : ∀ (d r : Nat) (s : State), Pres s (cloneRepD e d r s) := by
+  intro d
+  induction d with
+  | zero =>
+    intro r s
+    rw [cloneRepD]
+    split
     · exact pres_allocRep _ _
-    · exact (pres_allocRep _ s).trans (pres_bindFun _ _ _)
+    · split
+      · exact pres_allocRep _ _
+      · exact pres_allocRep _ _
+      · exact (pres_allocRep _ s).trans (pres_bindFunX _ _ _ _)
+  | succ d' ih =>
+    intro r s
+    rw [cloneRepD]
+    split
+    · exact pres_allocRep _ _
+    · split
+      · exact pres_allocRep _ _
+      · simp only []
+        refine Pres.trans ?_ (pres_nestFinish _ _ _ _ _)
+        split
+        · exact (pres_allocRep _ s).trans (pres_setSlot _ _ _)
+        · split
+          · exact (pres_allocRep _ s).trans (pres_setSlot _ _ _)
+          · apply pres_ite
+            · exact (pres_allocRep _ s).trans (pres_setSlot _ _ _)
+            · exact ((pres_allocRep _ s).trans (ih _ _)).trans (pres_setSlot _ _ _)
+      · exact (pres_allocRep _ s).trans (pres_bindFunX _ _ _ _)
+
+theorem pres_cloneRep (r : Nat) (s : State) : Pres s (cloneRep r s) := pres_cloneRepD _ _ r s
+
+theorem pres_newRep (f : Fun) (s : State) : Pres s (newRep f s) := by
+  unfold newRep
+  split
+  · simp only []
+    split
+    · exact ((pres_allocRep _ s).trans (pres_setSlot _ _ _)).trans (pres_nestFinish _ _ _ _ _)
+    · split
+      · exact ((pres_allocRep _ s).trans (pres_setSlot _ _ _)).trans (pres_nestFinish _ _ _ _ _)
+      · apply pres_ite
+        · exact ((pres_allocRep _ s).trans (pres_setSlot _ _ _)).trans (pres_nestFinish _ _ _ _ _)
+        · exact (((pres_allocRep _ s).trans (pres_cloneRepD _ _ _ _)).trans (pres_setSlot _ _ _)).trans
+            (pres_nestFinish _ _ _ _ _)
+  · exact (pres_allocRep _ s).trans (pres_bindFun _ _ _)
 
 theorem pres_slotAddCb (v c s) : Pres s (slotAddCb v c s) := by
   unfold slotAddCb; split
